@@ -24,7 +24,7 @@ FAULT_KINDS = ["seg", "rd_eagain", "rd_eintr", "xr_lost", "xr_dup", "xr_stale", 
                "cli_disconnect", "cli_reannounce_live", "cli_registered_early", "cli_hurry",
                "cli_pass_repeat", "cli_pass_illshaped", "timer_fire", "wall_jump", "junk",
                "cfg_same", "cfg_torn", "cfg_garbage", "cfg_missing", "cfg_eio", "cfg_burst",
-               "cfg_timeout", "cfg_tables", "extreme_ids"]
+               "cfg_timeout", "cfg_tables", "extreme_ids", "torn_next"]
 
 
 def word(rnd, n, chars=WORDCH):
@@ -378,6 +378,10 @@ class Gen:
         else:
             ident = ("u", "")
         claimed = word(r, self.L(USERLEN))
+        if r.random() < 0.06:
+            # the client's own user name starts with (or is nothing but) the "no ident" marker
+            claimed = r.choice(["~", "~", "~" + word(r, 3), "~~", "~~" + word(r, 2)])
+            self.fire("claimed_username_with_tilde")
         real = " ".join(word(r, r.randint(1, 9)) for _ in range(r.randint(1, 8)))[:self.L(REALLEN)]
         if r.random() < 0.1:
             real = r.choice(["", ":colon first", " lead", "trail ", "caf\xe9 \xff", "%s %d", "50%off today", "%n%n", "100%"])
@@ -396,6 +400,13 @@ class Gen:
             if pats and r.random() < 0.45:
                 host = glob_instance(r, r.choice(pats), HOSTLEN)
                 self.fire("host_near_rule")
+        if self.cfg["modules"] == "class" and r.random() < 0.08 and \
+                any(str(rl.get("trust_username", "")).lower() in [b.lower() for b in BOOL_TRUE] for rl in self.rules_now.values()):
+            # a rule trusts the client's own user name when there is no ident answer: that name is nothing but the
+            # "no ident" marker (or the marker twice)
+            claimed = r.choice(["~", "~", "~~"])
+            ident = r.choice([("u", "~" + word(r, 3)), ("u", None), ("u", ""), ident])
+            self.fire("trusted_username_is_a_bare_tilde")
         evs = [("N", host) if host else ("d", None), ident, ("n", nick), ("U", [claimed, real])]
         if r.random() < 0.25:
             evs.append(("n", word(r, self.L(NICKLEN))))
@@ -549,6 +560,15 @@ class Gen:
                 self.fire("seg")
             if r.random() < 0.15:
                 op["crlf"] = True
+            if "torn_next" in self.faults and op["op"] in ("announce", "cli", "xreply") and r.random() < 0.07:
+                # the write that carries this line ends in the middle of the server's next line (a statistics
+                # request), whose rest arrives later - possibly only after time has passed and timers have fired
+                form = r.choice(["stats", "stats", "stats2"])
+                full = "-1 ? " + form
+                t = self.cfg.get("timeout") or 0
+                op["torn"] = {"k": r.choice([1, 2, 3, 5, len(full) - 1, len(full)]), "form": form,
+                              "advs": [r.choice([NS, NS, 3 * NS, (t + 1) * NS]) for _ in range(r.choice([0, 1, 1, 2]))]}
+                self.fire("torn_next")
             if "rd_eagain" in self.faults and r.random() < 0.08:
                 op["rdf"] = "EAGAIN"
             elif "rd_eintr" in self.faults and r.random() < 0.08:
@@ -1004,7 +1024,11 @@ class Exec:
 
     # -- deliver -----------------------------------------------------------
     def feed_line(self, c):
-        data = c["line"].encode("latin1") + (b"\r\n" if c.get("crlf") else b"\n")
+        data = c["line"].encode("latin1")[c.get("lead_sent", 0):] + (b"\r\n" if c.get("crlf") else b"\n")
+        if c.get("torn"):
+            data += ("-1 ? " + c["torn"]["form"]).encode("latin1")[:c["torn"]["k"]]
+            self._fed_torn = True
+            self.w.probe("write_ends_inside_the_next_line")
         lines = []
         if c.get("pad"):
             # the line arrives in the middle of a backlog: kilobytes of other clients' traffic (short-lived
@@ -1036,6 +1060,18 @@ class Exec:
 
     def apply(self, op):
         """Execute one symbolic op.  Returns False when the run must stop."""
+        if op.get("torn") and not op.get("_inner"):
+            # the line, then what happens before the rest of the torn next line arrives, then that rest (one unit
+            # for the shrinker: a half line left behind would corrupt whatever line came next)
+            self._fed_torn = False
+            if not self.apply(dict(op, _inner=True)):
+                return False
+            if not self._fed_torn:
+                return True         # the line was not deliverable (e.g. a reply whose tag cannot be resolved): nothing torn
+            for ns in op["torn"]["advs"]:
+                if not self.apply({"op": "adv", "ns": ns}):
+                    return False
+            return self.apply({"op": "stats", "form": op["torn"]["form"], "lead_sent": op["torn"]["k"]})
         k = op["op"]
         if k == "drain":
             return self.drain(op)
